@@ -325,13 +325,18 @@ func zooSpecial(v reflect.Value) {
 }
 
 // zooEnvs lists the environments: every struct shape by value and by pointer, then the maps.
-func zooEnvs(rng *rand.Rand, nRandom int) []zooEnv {
-	var out []zooEnv
-	shapes := []interface{}{
+// zooShapes: the declared struct environments (each is used by value and by pointer)
+func zooShapes() []interface{} {
+	return []interface{}{
 		EnvShadowBefore{}, EnvShadowAfter{}, EnvAmbig{}, EnvDepth{}, EnvDepthRev{}, EnvDepth3{}, EnvAmbigDeep{},
 		EnvPtrEmb{}, EnvNameClashA{}, EnvNameClashB{}, EnvUnexported{}, EnvEmbScalar{}, EnvMeth{}, EnvPromV{}, EnvPromP{},
 		EnvMethClash{}, EnvMethVsField{}, EnvMethShadowsField{}, EnvEmbIface{}, EnvFuncs{}, EnvNested{}, EnvRec{}, EnvScalars{},
 	}
+}
+
+func zooEnvs(rng *rand.Rand, nRandom int) []zooEnv {
+	var out []zooEnv
+	shapes := zooShapes()
 	for _, s := range shapes {
 		n := reflect.TypeOf(s).Name()
 		out = append(out, zooEnv{n, popIface(s)})
